@@ -1918,6 +1918,10 @@ class ParallelismMixin(GenericHandler):
 #: class-level state that may be modified during a "dry run"
 _backend_lock = threading.RLock()
 
+#: per-thread note of the class whose lazy-loading stub last found its backend already loaded
+#: (see BackendMixin._stub_requires_backend)
+_stub_guard = threading.local()
+
 
 class BackendMixin(PasswordHash):
     """
@@ -2173,15 +2177,24 @@ class BackendMixin(PasswordHash):
         """
         helper for subclasses to create stub methods which auto-load backend.
         """
-        if cls.__backend:
-            raise AssertionError(
-                f"{cls.name}: _finalize_backend({cls.__backend!r}) failed to replace lazy loader"
-            )
-        cls.set_backend()
-        if not cls.__backend:
-            raise AssertionError(
-                f"{cls.name}: set_backend() failed to load a default backend"
-            )
+        with _backend_lock:
+            if cls.__backend:
+                # NOTE: another thread may have finished loading the backend after
+                #       this thread had already entered the lazy-loading stub; then there
+                #       is nothing left to load, and the caller re-dispatches to the real
+                #       implementation.  Only if the *same* thread ends up here twice in a
+                #       row the stub really was not replaced.
+                if getattr(_stub_guard, "last", None) is cls:
+                    raise AssertionError(
+                        f"{cls.name}: _finalize_backend({cls.__backend!r}) failed to replace lazy loader"
+                    )
+                _stub_guard.last = cls
+                return
+            cls.set_backend()
+            if not cls.__backend:
+                raise AssertionError(
+                    f"{cls.name}: set_backend() failed to load a default backend"
+                )
 
 
 class SubclassBackendMixin(BackendMixin):
